@@ -53,7 +53,10 @@ def one_case(rng, tier):
         for nm in names:
             sched.append([rng.choice([0, 0, 0.3, 1.0, 1.0, 2.5]), nm])
         return {'kind': 'filenames', 'schedule': sched, 'glob': rng.random() < 0.5, 'poll': 1.0,
-                'preexisting': rng.randrange(0, 3)}
+                'preexisting': rng.randrange(0, 3),
+                # the consumer stops the source while a batch is being delivered and it is started again later
+                'stop_on_delivery': rng.randrange(0, n) if rng.random() < 0.4 else None,
+                'restart_after': rng.choice([0.0, 0.5, 1.5])}
     d = rng.choice(DELIMS)
     alpha = list(set(list(d) + list(rng.choice(['xy', 'a', 'ab|', 'é中', 'x,'])))) + ['q']
     recs = []
@@ -198,7 +201,16 @@ def check_case(case, counters, sets):
                         cycles['n'] += 1
                         await orig()
                     src._run = cyc
-                    src.sink(lambda x: got.append((cycles['n'], os.path.basename(x))))
+                    def on_file(x):
+                        got.append((cycles['n'], os.path.basename(x)))
+                        if case.get('stop_on_delivery') is not None and len(got) - 1 == case['stop_on_delivery']:
+                            src.stop()
+                            counters['filenames_stopped_mid_batch'] = counters.get('filenames_stopped_mid_batch', 0) + 1
+                            if case.get('restart_after'):
+                                loop.call_later(case['restart_after'], src.start)
+                            else:
+                                loop.call_soon(src.start)
+                    src.sink(on_file)
                     t = 0.25 + sum(g for g, _ in case['schedule'])
                     todo = list(case['schedule'])
 
